@@ -807,3 +807,17 @@ pub mod c07 {
         out
     }
 }
+
+// C05/C06 index-panic controls
+pub mod idx {
+    /// BAD: panics for i >= len
+    pub fn unguarded(v: &[u32], i: usize) -> u32 { v[i] }
+    /// BAD: panics for an empty string / a cut inside a character
+    pub fn unguarded_slice(s: &str) -> &str { &s[1..] }
+    /// BAD: HashMap index panics for a missing key
+    pub fn unguarded_map(m: &std::collections::HashMap<String, u32>, k: &str) -> u32 { m[k] }
+    /// GOOD: compared with the length first
+    pub fn guarded(v: &[u32], i: usize) -> u32 { if i < v.len() { v[i] } else { 0 } }
+    /// GOOD: not empty, index 0
+    pub fn guarded_first(v: &Vec<u32>) -> u32 { if v.is_empty() { return 0; } v[0] }
+}
